@@ -118,6 +118,11 @@ def pub_parse_parts(version, rest):
     return pub_raw_parse(version + rest)
 
 
+def pub_parse_point(version, meta, K):
+    """raw_parse of version || 41 bytes of depth/fingerprint/child number/chain code || the SEC form of a point"""
+    return pub_raw_parse(version + meta + K.sec())
+
+
 def priv_raw_roundtrip(k, c, depth, fp, num, version):
     raw = mk_priv(k, c, depth, fp, num).raw_serialize(version)
     n = HDPrivateKey.raw_parse(BytesIO(raw))
